@@ -62,6 +62,18 @@ TEXT['C05'] = (
     'sampled histories). Fault-free and faulting configurations are separate swarm settings.',
     'DESIGN.md 3.5')
 
+TEXT['C16'] = (
+    'Seeded search over histories on Equilibrium objects: networks of 2-12 generated NASA-7 species over 1-4 elements (full-rank '
+    'and rank-deficient element matrices, spans up to 60), built from a list, a dict or a thermdat file on the simulated disk '
+    '(read faults), solved repeatedly at many (T, P) on the same object and on twins with permuted species order, with the '
+    'solver seam injecting iteration caps, exceptions and premature success. Oracle by outcome: a silent return is judged as '
+    'the equilibrium (atoms conserved to 1e-8, amounts >= 0, fractions sum to 1, Gibbs energy within 1e-7 x span per mole of an '
+    'independent element-potential Newton optimum, species above 1e-3 mole fraction at reaction equilibrium to 1e-3 RT, same '
+    'answer on reuse and under permutation); an unconverged or raising solver must end in a warning or an exception. Inputs '
+    'whose equilibrium holds a species below 1e-12 mole fraction are a recorded known finding (SLSQP stalls) and are judged '
+    'for conservation only. Thorough tier re-runs sampled solves under every solver policy.',
+    'DESIGN.md 3.16')
+
 TECHNIQUE = 'deterministic simulation with fault injection (seeded schedule/history search, reference-model oracle, ddmin replay)'
 
 
